@@ -228,9 +228,12 @@ def check_cli(ctx, plain, rng, scratch):
         want = tpf
     elif mode == "multi":
         # several input files of different formats in one invocation: each by its own extension
-        (d / "m1.agp").write_text(agp)
-        (d / "m2.tpf").write_text(tpf)
-        order = [d / "m1.agp", d / "m2.tpf"] if rng.random() < 0.5 else [d / "m2.tpf", d / "m1.agp"]
+        s1, s2 = ("m1", "m2") if rng.random() < 0.5 else ("same", "same")  # equal stems: still two inputs
+        (d / f"{s1}.agp").write_text(agp)
+        (d / f"{s2}.tpf").write_text(tpf)
+        order = [d / f"{s1}.agp", d / f"{s2}.tpf"] if rng.random() < 0.5 else [d / f"{s2}.tpf", d / f"{s1}.agp"]
+        if s1 == "same":
+            ctx.count("cli:multi-same-stem")
         if rng.random() < 0.5:
             # ... into one output file: it holds what all the inputs gave, in order
             r = cli_runs.run_asm_format([*order, "-f", "TPF", "-o", d / "multi.out"])
@@ -300,6 +303,7 @@ def gates(c, tier):
         "cli:out-override": 20,
         "cli:upper-ext": 20,
         "cli:multi-outfile": 20,
+        "cli:multi-same-stem": 20,
         "cli:with-qc-overlaps": 50,
         "cli:no-final-newline": 20,
         "corruption:no-final-newline:ref-valid:parsed": 300,
